@@ -41,9 +41,9 @@ def rule_canon(ctx):
 
 
 RULES = [
-    ("AGREE-C", rule_agree, 18),
+    ("AGREE-C", rule_agree, 10),
     ("QORDER", lambda ctx: None, 2),
-    ("IDEMP", rule_canon, 5),
+    ("IDEMP", rule_canon, 3),
 ]
 
 MANIFEST = {
